@@ -107,6 +107,40 @@ pub fn run(max_windows: u64, honest: bool) -> WorldOutcome {
         if calm {
             kernel::fault("calm_environment_with_contested_slots");
         }
+        // honest mode, half of the runs: the node's votes are *needed*. Some validators are crashed
+        // (silent) and one votes notar but never final (both inside the fault budget of C02: < 40 % of
+        // stake in total), such that blocks get notarized without the node but are only finalized
+        // with its finalize vote, on the two-round path.
+        // role per puppet: 0 = votes notar and final, 1 = notar only, 2 = silent
+        let mut vote_role: Vec<u8> = vec![0; n];
+        if honest && kernel::choose(E, 2) == 1 {
+            let mut order: Vec<usize> = (0..n).filter(|i| *i != real).collect();
+            for i in (1..order.len()).rev() {
+                let j = i - kernel::choose(E, (i + 1) as u64) as usize;
+                order.swap(i, j);
+            }
+            let mut full = 0u64;
+            let mut notar = 0u64;
+            let mut role = vec![2u8; n];
+            for v in order {
+                if (full + stakes[v]) * 5 < total * 3 {
+                    role[v] = 0;
+                    full += stakes[v];
+                    notar += stakes[v];
+                } else if notar * 5 < total * 3 {
+                    role[v] = 1;
+                    notar += stakes[v];
+                }
+            }
+            let silent: u64 = (0..n).filter(|i| *i != real && role[*i] == 2).map(|i| stakes[i]).sum();
+            let notar_only: u64 = (0..n).filter(|i| *i != real && role[*i] == 1).map(|i| stakes[i]).sum();
+            // feasible: notarization without the node, finalization only with it, faults within budget
+            if notar * 5 >= total * 3 && (full + stakes[real]) * 5 >= total * 3 && full * 5 < total * 3 && silent * 5 < total && notar_only * 5 < total {
+                vote_role = role;
+                vote_role[real] = 0;
+                kernel::fault("honest_environment_needs_the_nodes_votes");
+            }
+        }
         for s in 1..=last_slot {
             let t_s = 300 + 450 * s;
             let leader = ((s / 4) % n as u64) as usize;
@@ -162,16 +196,25 @@ pub fn run(max_windows: u64, honest: bool) -> WorldOutcome {
                 built.insert((s, 1), blk);
                 blocks_by_slot.entry(s).or_default().push(((s, 1), chain_tip));
                 // an eager leader's block can arrive well before its nominal time (honest mode only)
-                let early = if honest && kernel::choose(E, 3) == 1 { 150 + kernel::choose(E, 150) } else { 0 };
-                script.push((t_s - early + kernel::choose(E, 100), In::Block { b: (s, 1), parent: chain_tip }));
+                // ... or late enough for the others' notar votes to overtake it (well inside the node's timeouts)
+                let (early, late) = match if honest { kernel::choose(E, 3) } else { 0 } {
+                    1 => (150 + kernel::choose(E, 150), 0),
+                    2 => (0, 150 + kernel::choose(E, 150)),
+                    _ => (0, 0),
+                };
+                script.push((t_s - early + late + kernel::choose(E, 100), In::Block { b: (s, 1), parent: chain_tip }));
                 chain_tip = (s, 1);
                 for v in 0..n {
                     if v == real {
                         continue;
                     }
                     let slow = if slow_voters[v] { 250 + kernel::choose(E, 250) } else { 0 };
-                    script.push((t_s + 50 + slow + kernel::choose(E, 200), In::Vote { v, kind: VK::Notar, slot: s, tag: 1 }));
-                    script.push((t_s + 300 + slow + kernel::choose(E, 200), In::Vote { v, kind: VK::Final, slot: s, tag: 0 }));
+                    if vote_role[v] <= 1 {
+                        script.push((t_s + 50 + slow + kernel::choose(E, 200), In::Vote { v, kind: VK::Notar, slot: s, tag: 1 }));
+                    }
+                    if vote_role[v] == 0 {
+                        script.push((t_s + 300 + slow + kernel::choose(E, 200), In::Vote { v, kind: VK::Final, slot: s, tag: 0 }));
+                    }
                 }
                 continue;
             }
